@@ -32,6 +32,9 @@ pub fn gen_history(rng: &mut Rng) -> (CtxSpec, Vec<String>) {
     spec.vars.push(("s".into(), s.clone()));
     spec.vars.push(("t".into(), s));
     spec.vars.push(("n".into(), Value::Int(rng.range(0, 5))));
+    // a list large enough that nested macros do thousands of iterations (budgets, counters or
+    // pools shared between executions show under that load, not on three-element lists)
+    spec.vars.push(("big".into(), Value::List(Arc::new((0..64).map(Value::Int).collect()))));
     // `k` is re-bound in every inner scope by the concurrency driver
     spec.vars.push(("k".into(), Value::Int(rng.range(0, 9))));
     spec.vars.push(("m".into(), gen_value(rng, &Ty::Map(Box::new(Ty::Str), Box::new(Ty::List(Box::new(Ty::Int)))), 2)));
@@ -58,9 +61,13 @@ pub fn gen_history(rng: &mut Rng) -> (CtxSpec, Vec<String>) {
     let r0 = rng.below(regexes.len() as u64) as usize;
     let my_regexes = [regexes[r0], regexes[(r0 + 3) % regexes.len()]];
     let fail_pct = *rng.pick(&[0u64, 10, 30, 60]);
+    let heavy = ["size(big.map(a, big.filter(b, b > a)))", "big.map(a, big.map(b, a + b)).size()", "big.all(a, big.exists(b, b == a))", "big.filter(a, big.map(b, b * a).size() > n).size()"];
+    let heavy_pct = if rng.chance(1, 4) { 25 } else { 0 };
     let progs = (0..n)
         .map(|_| {
-            if rng.below(100) < fail_pct {
+            if rng.below(100) < heavy_pct {
+                rng.pick(&heavy).to_string()
+            } else if rng.below(100) < fail_pct {
                 rng.pick(&failing).to_string()
             } else if rng.chance(1, 8) {
                 rng.pick(&my_regexes).to_string()
